@@ -147,6 +147,78 @@ def run(ctx):
     if total < 60:
         ctx.broken("C12.iter", f"only {total} iteration sites typed")
 
+    # the same through one call: a raw set / map payload handed to a helper that iterates that parameter in order
+    from .common import resolve_static_call
+    order_params = {}
+    for g in model.all_funcs():
+        if g.module.name in ("run", "repl"):
+            continue
+        params = [a.arg for a in g.node.args.posonlyargs + g.node.args.args]
+        if g.cls is not None and params[:1] in (["self"], ["cls"]):
+            params = params[1:]
+        if not params:
+            continue
+        par = {}
+        for n in ast.walk(g.node):
+            for ch in ast.iter_child_nodes(n):
+                par[id(ch)] = n
+        reassigned = {n.id for n in ast.walk(g.node) if isinstance(n, ast.Name) and isinstance(n.ctx, ast.Store)}
+        hits = set()
+        for n in ast.walk(g.node):
+            it = None
+            if isinstance(n, ast.For):
+                it, order_free = n.iter, None
+            elif isinstance(n, ast.comprehension):
+                it = n.iter
+            if it is None:
+                continue
+            base = it
+            if isinstance(base, ast.Call) and isinstance(base.func, ast.Attribute) and base.func.attr in ("items", "keys", "values") \
+                    and not base.args:
+                base = base.func.value
+            if not (isinstance(base, ast.Name) and base.id in params and base.id not in reassigned):
+                continue
+            if isinstance(n, ast.comprehension):
+                owner = par.get(id(n))
+                if isinstance(owner, (ast.SetComp, ast.DictComp)):
+                    continue
+                call = par.get(id(owner))
+                if isinstance(call, ast.Call) and norm(call.func) in ORDER_FREE_CONSUMERS:
+                    continue
+            else:
+                ip_g = engine.interp(g)
+                if _loop_is_order_free(n, engine, ip_g):
+                    continue
+            hits.add(params.index(base.id))
+        if hits:
+            order_params[g] = hits
+    n_calls = 0
+    for f in model.all_funcs():
+        if f.module.name in ("run", "repl"):
+            continue
+        cands = [c for c in ast.walk(f.node) if isinstance(c, ast.Call) and resolve_static_call(model, f, c) in order_params]
+        if not cands:
+            continue
+        ip = engine.interp(f)
+        for ev in ip.events:
+            if ev.kind != "call" or not isinstance(ev.node, ast.Call):
+                continue
+            callee = resolve_static_call(model, f, ev.node)
+            if callee not in order_params:
+                continue
+            fn, args, kwargs = ev.data
+            for idx in sorted(order_params[callee]):
+                if idx >= len(args):
+                    continue
+                n_calls += 1
+                why = _raw_unordered(args[idx])
+                ctx.check("C12.iter", f, ev.node, why is None,
+                          f"{why} `{norm(ev.node.args[idx])[:50]}` is handed to {callee.qual}, which iterates that "
+                          f"parameter into an order-sensitive result: the outcome depends on the hash seed / "
+                          f"construction order", expr=f"{callee.qual}({norm(ev.node.args[idx])[:50]})",
+                          site=f"{f.qual}: {callee.qual}({norm(ev.node.args[idx])[:40]}) [{args[idx]!r}]"[:130])
+    ctx.note(f"C12.iter: {len(order_params)} helpers iterate a parameter in order; {n_calls} typed call sites")
+
     # ---------------------------------------------------------------- sources
     cg = CallGraph(model)
     allowed = {("FuncDate.execute", "datetime.datetime.now"), ("FuncTimestamp.execute", "datetime.datetime.now"),
